@@ -6,6 +6,7 @@
 //   reduce S:<op> S:<api> S:<axiskind> S:<kd> S:<arraykind> A:<arr> <axis: N | I:k | L:..> <init: N | I:v>
 // axiskind: none | int | vec (std::vector<int>) | arr (std::array<int,N>) | ct (tuple of meta::ct, fixed table) | cti (meta::ct)
 //   accum  S:<op> S:<arraykind> A:<arr> I:<axis>
+//   defer  S:<red|redk|acc|sumv> S:<dyn|fs> <A1> <A2> I:<axis> I:<c>     (deferred evaluation of a reduction over a temporary view)
 // kd: def (argument absent) | rt0 | rt1 (run-time bool: the either<> path) | ct0 | ct1 (False / True)
 // arraykind: dyn (std::vector shape: run-time loops) | fix (std::array shape: the template_for arms)
 #include "nmtools/array/view/ufuncs/add.hpp"
@@ -19,6 +20,7 @@
 #include "nmtools/array/view/prod.hpp"
 #include "nmtools/array/view/cumsum.hpp"
 #include "nmtools/array/view/cumprod.hpp"
+#include "nmtools/array/view/ufuncs/negative.hpp"
 #include "show.hpp"
 
 namespace view = nmtools::view;
@@ -156,7 +158,64 @@ static std::string accum_case(const Case& c, const arr_t& a) {
     return "unsupported";
 }
 
+// ---- deferred evaluation: a reduction / accumulation of a TEMPORARY operand view, built inside a noinline helper and
+// returned by value; the helper runs twice with different data before either result is read (a view must own its view
+// operands; only leaf arrays are referenced)
+#define VD_NOINLINE __attribute__((noinline))
+template <typename A> VD_NOINLINE static auto d_red(const A& a, int axis, ll init) { auto t = view::negative(a); return view::reduce(lin_t{}, t, axis, None, init); }
+template <typename A> VD_NOINLINE static auto d_redk(const A& a, int axis) { return view::sum(view::negative(a), std::vector<int>{axis}, None, None, true); }
+template <typename A> VD_NOINLINE static auto d_acc(const A& a, int axis) { auto t = view::negative(a); return view::accumulate(lin_t{}, t, axis); }
+template <typename A> VD_NOINLINE static auto d_sumv(const A& a, int axis, ll c) { ll k = c + 1; return view::sum(view::add(a, k), axis); }
+
+template <typename V>
+static std::string showd(const V& v) {
+    if constexpr (meta::is_either_v<V>) {
+        using L = meta::get_either_left_t<V>; using R = meta::get_either_right_t<V>;
+        if (auto l = nm::get_if<L>(&v)) return showd(*l); else return showd(*nm::get_if<R>(&v));
+    } else if constexpr (meta::is_maybe_v<V>) { if (!nm::has_value(v)) return "nothing"; return showd(*v); }
+    else if constexpr (meta::is_num_v<V>) return show(v);
+    else {
+        const auto shp = nm::unwrap(nm::shape(v));
+        using shp_t = std::decay_t<decltype(shp)>;
+        constexpr auto R = meta::len_v<shp_t>;
+        if constexpr (R > 0) {
+            std::array<size_t, R> ext{}, idx{};
+            if constexpr (meta::is_tuple_v<shp_t>) meta::template_for<R>([&](auto i) { ext[i] = (size_t)nm::at(shp, i); });
+            else for (size_t i = 0; i < R; i++) ext[i] = (size_t)nm::at(shp, i);
+            size_t total = 1; for (auto e : ext) total *= e;
+            std::string o = "ok " + joinc(ext) + " ;";
+            for (size_t c = 0; c < total; c++) {
+                o += (c ? "," : " ") + num_str(nm::apply_at(v, idx));
+                for (int d = (int)R - 1; d >= 0; d--) { if (++idx[d] < ext[d]) break; idx[d] = 0; }
+            }
+            return o;
+        } else return show(v);
+    }
+}
+template <typename A>
+static std::string defer_case(const std::string& form, const A& a1, const A& a2, int axis, ll c) {
+    auto both = [](const auto& e1, const auto& e2) { return showd(e1) + " | " + showd(e2); };
+    if (form == "red") { auto e1 = d_red(a1, axis, c); auto e2 = d_red(a2, axis, c + 3); return both(e1, e2); }
+    if (form == "redk") { auto e1 = d_redk(a1, axis); auto e2 = d_redk(a2, axis); return both(e1, e2); }
+    if (form == "acc") { auto e1 = d_acc(a1, axis); auto e2 = d_acc(a2, axis); return both(e1, e2); }
+    if (form == "sumv") { auto e1 = d_sumv(a1, axis, c); auto e2 = d_sumv(a2, axis, c + 3); return both(e1, e2); }
+    return "unsupported";
+}
+
 static std::string handle(const Case& c) {
+    if (c.op == "defer") {
+        // defer S:<red|redk|acc|sumv> S:<dyn|fs> <A1> <A2> I:<axis> I:<c>      fs: (2,3) nested std::array
+        const std::string form = c.args[0].raw.substr(2), kind = c.args[1].raw.substr(2);
+        int axis = (int)c.args[4].val; ll cc = c.args[5].val;
+        if (kind == "dyn") return defer_case(form, make_array(c.args[2]), make_array(c.args[3]), axis, cc);
+        if (kind == "fs") {
+            using A23 = std::array<std::array<ll,3>,2>;
+            auto mkA = [](const Arg& x) { A23 a{}; for (int i = 0; i < 6; i++) a[i / 3][i % 3] = x.list[i]; return a; };
+            if (c.args[2].list.size() != 6) return "unsupported";
+            return defer_case(form, mkA(c.args[2]), mkA(c.args[3]), axis, cc);
+        }
+        return "unsupported";
+    }
     if (c.op == "reduce") {
         const std::string arrk = c.args[4].raw.substr(2); const Arg& A = c.args[5];
         if (arrk == "dyn") return reduce_case<true, 4>(c, make_array(A));
